@@ -49,6 +49,40 @@ theorem cands_eq_reach (ps : List String) (d : Val) (cs : List (Option Val))
     (h : cands ps d = .ok cs) : cs = reach ps d :=
   C01Lemmas.cands_eq_reach ps d cs h
 
+theorem candsKey_eq_reach (key : String) (d : Val) (cs : List (Option Val))
+    (h : candsKey key d = .ok cs) : cs = reach (splitDots key) d :=
+  C01Lemmas.cands_eq_reach (splitDots key) d cs h
+
+theorem candsKey_empty (fs : Fields) : candsKey "" (.doc fs) = .ok [dget "" fs] := by
+  have h : splitDots "" = [""] := by decide
+  simp only [candsKey, h, cands]
+
+theorem unknown_operator_rejected (fs : Fields) (key : String) (d : Val)
+    (hops : isOpsFilter (.doc fs) = true)
+    (hunk : ∃ op, op ∈ dkeys fs ∧ operatorMapKeys.contains op = false ∧ op ≠ "$not")
+    (hopt : ¬ ("$options" ∈ dkeys fs ∧ "$regex" ∈ dkeys fs)) :
+    applyKey (.doc fs) key d = .error .opFail ∨ applyKey (.doc fs) key d = .error .notImpl := by
+  refine C01Lemmas.applyKey_unknown_op fs key d hops ?_ ?_
+  · by_cases h1 : "$options" ∈ dkeys fs
+    · by_cases h2 : "$regex" ∈ dkeys fs
+      · exact absurd ⟨h1, h2⟩ hopt
+      · simp [h2]
+    · simp [h1]
+  · obtain ⟨op, hm, h1, h2⟩ := hunk
+    exact List.any_eq_true.mpr ⟨op, hm, by
+      have h2' : (op != "$not") = true := by simpa using h2
+      simp only [C01Lemmas.unknownOp, h1, h2', Bool.not_false, Bool.and_self]⟩
+
+theorem unknown_single_eq_spec (key op : String) (sv d : Val)
+    (hk : key.startsWith "$" = false) (hop : op.startsWith "$" = true)
+    (hunk : operatorMapKeys.contains op = false) (hn : op ≠ "$not") :
+    ∃ e, (e = .opFail ∨ e = .notImpl) ∧
+      filterApplies (.doc [(key, .doc [(op, sv)])]) d = .error e ∧
+      specMatches (.doc [(key, .doc [(op, sv)])]) d = .error e :=
+  C01Lemmas.unknown_single_eq_spec key op sv d hk hop (by
+    have hn' : (op != "$not") = true := by simpa using hn
+    simp only [C01Lemmas.unknownOp, hunk, hn', Bool.not_false, Bool.and_self])
+
 theorem matches_eq_spec (f d : Val) (h : inD f d = true) :
     filterApplies f d = specMatches f d :=
   C01Lemmas.matches_eq_spec f d h
